@@ -88,6 +88,16 @@ func (r *verifC17Req) String() string {
 	return s + ")"
 }
 
+// dump prints the request payload (for violation messages).
+func (r *verifC17Req) dump() string {
+	for _, p := range []any{r.task, r.create, r.claim, r.advance, r.setF, r.reset, r.commit, r.addL, r.promote, r.clear, r.abort, r.gc, r.meta} {
+		if v := reflect.ValueOf(p); !v.IsNil() {
+			return fmt.Sprintf("%+v", v.Elem().Interface())
+		}
+	}
+	return ""
+}
+
 func (r *verifC17Req) encode() []byte {
 	switch r.kind {
 	case "create":
@@ -421,12 +431,12 @@ func (w *verifC17World) apply(rt *rapid.T, r *verifC17Req, direct bool) string {
 		if errors.Is(err, metadb.ErrStaleMeta) || errors.Is(err, metadb.ErrNotFound) || errors.Is(err, metadb.ErrAlreadyExists) {
 			return ApplyResultStaleMeta
 		}
-		rt.Fatalf("VERIF-VIOLATION C17: WriteBatch path failed hard on a well-formed command %s: %v", r, err)
+		rt.Fatalf("VERIF-VIOLATION C17: WriteBatch path failed hard on a well-formed command %s: %v\n  request: %s", r, err, r.dump())
 	}
 	w.index++
 	res, err := w.sm.Apply(ctx, multiraft.Command{SlotID: verifC17Slot, Index: w.index, Term: 1, Data: r.encode()})
 	if err != nil {
-		rt.Fatalf("VERIF-VIOLATION C17: state machine failed hard on a well-formed command %s: %v", r, err)
+		rt.Fatalf("VERIF-VIOLATION C17: state machine failed hard on a well-formed command %s: %v\n  request: %s", r, err, r.dump())
 	}
 	if r.kind == "gc" {
 		if _, ok, derr := DecodeGarbageCollectTerminalChannelMigrationTasksResult(res); !ok || derr != nil {
